@@ -1,4 +1,5 @@
 """C16 — Components listings, lookups and events stay mutually consistent (DESIGN.md section 5, C16)."""
+import copy
 import json
 import os
 
@@ -13,13 +14,15 @@ TIE = "Tie.C16"
 DRIVER = "c16_driver.py"
 SHARD = 18
 THEOREMS = [
-    "C16_listings_exact", "C16_registries_determined_by_listings", "C16_probe_finds_nothing",
+    "C16_listings_exact", "C16_registries_determined_by_listings", "C16_subscribed_utility_may_be_unlisted",
+    "C16_probe_finds_nothing", "C16_probe_is_rebuild_false", "C16_probe_repairs",
     "C16_events_exact_refuted", "C16_events_exact_refuted_multi_removal",
     "C16_events_exact_refuted_adapter_overwrite", "C16_events_exact_partial",
     "C16_unregister_returns_removed", "C16_replace_order", "C16_pruning_never_hides",
-    "C16_queryUtility_from_listings",
+    "C16_queryUtility_from_listings", "C16_listings_local", "C16_queries_follow_bases",
     "C16_generated_counter_eq_model", "C16_generated_utility_cache_eq_model", "C16_generated_utilities_eq_model",
-    "C16_generated_adapters_eq_model", "C16_generated_subscriptions_eq_model",
+    "C16_generated_adapters_eq_model", "C16_generated_subscriptions_eq_model", "C16_generated_rebuild_eq_model",
+    "C16_generated_queries_eq_model",
 ]
 REGISTRY_PY = os.path.join(C.REPO, "src", "zope", "interface", "registry.py")
 GEN = os.path.join(C.COQ, "Gen", "ComponentsKernel.v")
@@ -36,12 +39,16 @@ def regenerate(run):
                 "kernel, so the theorems C16_generated_*_eq_model are NOT about the current source"
                 % (REGISTRY_PY, type(e).__name__, e)]
 
-RULE = ("histories of 5-40 calls of the eight register*/unregister* methods (+ re-__init__) on one Components "
-        "over a generated interface/class world, with identical / equal-but-distinct / unhashable / falsy components, "
-        "several names and infos, related provided interfaces, explicit / factory= / inferred / class-valued "
-        "arguments; after every call: return value, events, four listings, probe counters, 3 targeted queries "
-        "(12 after the last call); a case is non-trivial when it registers a utility and at least one "
-        "unregister call returned True; distinct = distinct (first 12 op kinds, permitted finding shape)")
+RULE = ("histories of 5-40 calls of the eight register*/unregister* methods (+ re-__init__, + the rejected "
+        "component-and-factory call) on one to three Components objects connected and re-based through __bases__ "
+        "mid-history (40% of the cases), over a generated interface/class world, with identical / "
+        "equal-but-distinct / unhashable / falsy components and factory= objects, several names and infos, "
+        "event=False in a fifth of the register calls, related provided interfaces, explicit / factory= / inferred / "
+        "class-valued arguments, and occasional corruption of the utilities registry behind the object's back "
+        "followed by rebuildUtilityRegistryFromLocalCache(True); after every call: return value, events, four "
+        "listings, probe counters, 3 targeted queries put to the object or another one of the chain (12 after the "
+        "last call); a case is non-trivial when it registers a utility and at least one unregister call returned "
+        "True; distinct = distinct (first 12 op kinds, permitted finding shape)")
 TRUSTED_BASE = [
     "harness/translate/components.py: the fixed abstraction tables of the translator (a cache value is a dict or the "
     "generated counter; counts are naturals; the KeyError marked unreachable is 'no change'; dictionary reads are "
@@ -52,6 +59,10 @@ TRUSTED_BASE = [
     "determined by the equality class",
 ]
 ASSUMPTIONS = [
+    "an object that is listed in another object's __bases__ is not re-initialised (the other object would keep "
+    "consulting the abandoned registries); __bases__ name earlier objects",
+    "event=False suppresses the Registered event of the call only: the Unregistered event of a utility it displaces "
+    "is still due",
     "component __eq__ is an equivalence, __hash__ is consistent with it, and an unhashable component is never "
     "equal to a hashable one",
     "provided / required / name are passed explicitly or inferred to the same values; event=True",
@@ -59,10 +70,21 @@ ASSUMPTIONS = [
 ]
 F9_KEY = "F9-multi-subscription-unregister-one-event"
 F11_KEY = "F11-adapter-overwrite-registered-only"
+F13_KEY = "F13-unregistered-equal-utility-still-handed-out"
+KEYS = {"F9": (9, F9_KEY), "F11": (11, F11_KEY), "F13": (13, F13_KEY)}
 
 # component pool: identity -> equality class; which classes are unhashable varies per case
 POOL = {1: 1, 2: 1, 3: 3, 4: 4, 5: 5, 6: 5, 7: 7, 8: 8}
 UNHASHABLE_PRESETS = [[5, 6, 7], [5, 6, 7], [5, 6], [7], [], [1, 2, 5, 6, 7], [3, 4, 8]]
+
+
+def _noev(op):
+    """an operation without its trailing ``event=`` flag (register ops may carry one; default True)"""
+    return op[:-1] if isinstance(op[-1], bool) and op[0] in ("regU", "regA", "regS", "regH") else op
+
+
+def _ev(op):
+    return op[-1] if isinstance(op[-1], bool) and op[0] in ("regU", "regA", "regS", "regH") else True
 
 
 def _conv(req):
@@ -78,27 +100,72 @@ class Ledger:
 
     def reset(self):
         self.u, self.a, self.s, self.h = {}, {}, [], []
+        self.rep = {}          # (provided, equality class) -> [identity subscribed to ``utilities``, count]
+
+    def _rep_add(self, p, v):
+        r = self.rep.setdefault((p, v[1]), [v[0], 0])
+        r[1] += 1
+
+    def _rep_del(self, p, v):
+        r = self.rep[(p, v[1])]
+        r[1] -= 1
+        if r[1] == 0:
+            del self.rep[(p, v[1])]
+
+    def stale(self):
+        """a component is subscribed (and handed out by getAllUtilitiesRegisteredFor) although
+        no live registration under that provided interface holds that very object"""
+        for (p, _cls), (vid, _n) in self.rep.items():
+            if not any(k[0] == p and val[0][0] == vid for k, val in self.u.items()):
+                return True
+        return False
 
     @staticmethod
     def eq(a, b):
         return a[1] == b[1]
 
     def shapes_of(self, op):
+        out = set()
+        trial = Ledger()
+        trial.u, trial.rep = dict(self.u), {k: list(v) for k, v in self.rep.items()}
+        if op[0] in ("regU", "unregU", "reinit", "tamper", "rebuild"):
+            trial.unsub = getattr(self, "unsub", None)
+            trial.apply(op)
+        if trial.stale():
+            out.add("F13")
+        op = _noev(op)
         k = op[0]
         if k == "regA" and (_conv(op[2]), op[3], op[4]) in self.a:
-            return {"F11"}
+            out.add("F11")
         if k == "unregS" and op[4] == 0:
             q, p, f = _conv(op[2]), op[3], op[1]
             n = sum(1 for (q2, p2, f2, _i) in self.s if q2 == q and p2 == p and (f is None or self.eq(f2, f)))
-            return {"F9"} if n > 1 else set()
+            if n > 1:
+                out.add("F9")
         if k == "unregH" and op[3] == 0:
             q, f = _conv(op[2]), op[1]
             n = sum(1 for (q2, f2, _i) in self.h if q2 == q and (f is None or self.eq(f2, f)))
-            return {"F9"} if n > 1 else set()
-        return set()
+            if n > 1:
+                out.add("F9")
+        return out
 
     def apply(self, op):
+        op = _noev(op)
         k = op[0]
+        if k == "tamper":
+            if op[1] == "unsub":
+                self.unsub = (op[2], op[3][1])
+            return
+        if k == "rebuild":
+            # a class unsubscribed behind the object's back is re-subscribed with the first listed
+            # utility of that class
+            pc = getattr(self, "unsub", None)
+            self.unsub = None
+            if pc is not None and pc in self.rep:
+                first = [val[0] for key, val in self.u.items() if key[0] == pc[0] and val[0][1] == pc[1]]
+                if first:
+                    self.rep[pc][0] = first[0][0]
+            return
         if k == "reinit":
             self.reset()
         elif k == "regU":
@@ -106,13 +173,17 @@ class Ledger:
             old = self.u.get((p, n))
             if old is not None and self.eq(old[0], v) and old[1] == i:
                 return
+            if old is not None:
+                self._rep_del(p, old[0])
             self.u.pop((p, n), None)
             self.u[(p, n)] = (v, i, fac)
+            self._rep_add(p, v)
         elif k == "unregU":
             _, v, p, n, _style = op
             old = self.u.get((p, n))
             if old is not None and (v is None or self.eq(v, old[0])):
                 del self.u[(p, n)]
+                self._rep_del(p, old[0])
         elif k == "regA":
             _, v, req, p, n, i, _style = op
             self.a[(_conv(req), p, n)] = (v, i)
@@ -142,11 +213,18 @@ class Ledger:
 
 
 def case_shapes(case):
-    led = Ledger()
+    leds = [Ledger()]
     shapes = set()
     for st in case["steps"]:
-        shapes |= led.shapes_of(st["op"])
-        led.apply(st["op"])
+        op = st["op"]
+        if op[0] == "newc":
+            leds.append(Ledger())
+            continue
+        if op[0] == "setbases":
+            continue
+        led = leds[st.get("on", 0)]
+        shapes |= led.shapes_of(op)
+        led.apply(op)
     return shapes
 
 
@@ -178,9 +256,21 @@ def gen_case(rng, permit, n_steps):
         oprov.append(sorted(s))
     names = [0, 0, 0, 1, 2]
     infos = [0, 0, 1, 2]
-    led = Ledger()
+    multi = rng.random() < 0.4                 # a stream with 2-3 objects in re-based chains
+    leds = [Ledger()]
+    bases = [[]]
+    led = leds[0]
     steps = []
     seen_prov = []
+
+    def reach(r):
+        out, todo = [], [r]
+        while todo:
+            x = todo.pop(0)
+            if x not in out:
+                out.append(x)
+                todo += bases[x]
+        return out
 
     def related_iface():
         if seen_prov and rng.random() < 0.6:
@@ -212,6 +302,7 @@ def gen_case(rng, permit, n_steps):
         return "plain"
 
     def gen_op():
+        nonlocal led
         k = rng.choices(["regU", "unregU", "regA", "unregA", "regS", "unregS", "regH", "unregH", "reinit", "uboth"],
                         [5, 3, 3, 2, 3, 2, 2, 1.5, 0.12, 0.4])[0]
         if k == "reinit":
@@ -363,16 +454,70 @@ def gen_case(rng, permit, n_steps):
         return [k, [rng.randrange(nobj) for _ in range(rng.choice([0, 1, 2]))]]
 
     for si in range(n_steps):
+        nq = 12 if si == n_steps - 1 else 3
+        if multi:
+            r = rng.random()
+            struct = None
+            if len(leds) < 3 and (r < 0.15 or (len(leds) == 1 and si >= 1 and r < 0.5)):
+                bs = [b for b in range(len(leds)) if rng.random() < 0.7]
+                rng.shuffle(bs)
+                struct = (["newc", bs], len(leds))
+                leds.append(Ledger())
+                bases.append(list(bs))
+            elif len(leds) > 1 and r < 0.27:
+                t = rng.randrange(1, len(leds))
+                bs = [b for b in range(t) if rng.random() < 0.6]
+                rng.shuffle(bs)
+                bases[t] = list(bs)
+                struct = (["setbases", t, bs], t)
+            if struct is not None:
+                qon = [rng.randrange(len(leds)) for _ in range(nq)]
+                qs = []
+                for rq in qon:
+                    led = leds[rng.choice(reach(rq))]
+                    qs.append(gen_query())
+                steps.append({"op": struct[0], "on": struct[1], "queries": qs, "qon": qon})
+                continue
+        on = rng.randrange(len(leds)) if multi else 0
+        led = leds[on]
+        used_as_base = any(on in b for b in bases)
+        if led.u and rng.random() < 0.05 and si < n_steps - 1:
+            # corrupt the utilities registry, then repair it: two consecutive steps
+            (tp, tn), (tc, _ti, _tf) = rng.choice(list(led.u.items()))
+            t_op = ["tamper", "unreg", tp, tn] if rng.random() < 0.5 else ["tamper", "unsub", tp, tc]
+            trial = copy.deepcopy(led)
+            ok_shape = True
+            for o_ in (t_op, ["rebuild"]):
+                sh = trial.shapes_of(o_)
+                ok_shape = ok_shape and (not sh or sh <= {permit})
+                trial.apply(o_)
+            if ok_shape:
+                leds[on] = led = trial
+                steps.append({"op": t_op, "on": on, "queries": [], "qon": []})
+                qon = [on] * nq
+                qs = [gen_query() for _ in range(nq)]
+                steps.append({"op": ["rebuild"], "on": on, "queries": qs, "qon": qon})
+                continue
         for _attempt in range(30):
             op = gen_op()
+            if op[0] == "reinit" and used_as_base:
+                continue
+            if op[0] in ("regU", "regA", "regS", "regH"):
+                op = op + [rng.random() > 0.2]         # event=False in a fifth of the register calls
             sh = led.shapes_of(op)
             if not sh or sh <= {permit}:
                 break
         else:
-            op = ["regU", _comp(rng), rng.choice(ifaces), rng.choice(names), 0, None, "plain"]
+            op = ["regU", _comp(rng), rng.choice(ifaces), rng.choice(names), 0, None, "plain", True]
         led.apply(op)
-        nq = 12 if si == n_steps - 1 else 3
-        steps.append({"op": op, "queries": [gen_query() for _ in range(nq)]})
+        if op[0] == "reinit":
+            bases[on] = []
+        qon = [(rng.randrange(len(leds)) if rng.random() < 0.7 else on) for _ in range(nq)] if multi else [on] * nq
+        qs = []
+        for rq in qon:
+            led = leds[rng.choice(reach(rq))]
+            qs.append(gen_query())
+        steps.append({"op": op, "on": on, "queries": qs, "qon": qon})
     world["unhashable"] = rng.choice(UNHASHABLE_PRESETS)
     # falsy components (bool(c) is False): an attribute of the implementation's objects only
     r = rng.random()
@@ -389,7 +534,7 @@ def generate(run, tier):
     n = 240 if tier == "quick" else 4000
     cases = []
     for _ in range(n):
-        permit = rng.choices(["none", "F9", "F11"], [76, 12, 12])[0]
+        permit = rng.choices(["none", "F9", "F11", "F13"], [67, 11, 11, 11])[0]
         n_steps = rng.choice([5, 8, 12, 16, 20, 25, 30, 40])
         cases.append(gen_case(rng, permit, n_steps))
     return cases
@@ -414,25 +559,27 @@ def c_req(l):
 
 
 def c_op(op):
+    ev = C.cbool(_ev(op))
+    op = _noev(op)
     k = op[0]
     if k == "reinit":
         return "Reinit"
     if k == "uboth":
         return "(UtilityBoth %s %s %d %d)" % (C.cbool(op[1]), c_v(op[2]), op[3], op[4])
     if k == "regU":
-        return "(RegUtility %s %d %d %d %s)" % (c_v(op[1]), op[2], op[3], op[4], c_onat(op[5]))
+        return "(RegUtility %s %d %d %d %s %s)" % (c_v(op[1]), op[2], op[3], op[4], c_onat(op[5]), ev)
     if k == "unregU":
         return "(UnregUtility %s %d %d)" % (c_ov(op[1]), op[2], op[3])
     if k == "regA":
-        return "(RegAdapter %s %s %d %d %d)" % (c_v(op[1]), c_req(op[2]), op[3], op[4], op[5])
+        return "(RegAdapter %s %s %d %d %d %s)" % (c_v(op[1]), c_req(op[2]), op[3], op[4], op[5], ev)
     if k == "unregA":
         return "(UnregAdapter %s %s %d %d)" % (c_ov(op[1]), c_req(op[2]), op[3], op[4])
     if k == "regS":
-        return "(RegSub %s %s %d %d %d)" % (c_v(op[1]), c_req(op[2]), op[3], op[4], op[5])
+        return "(RegSub %s %s %d %d %d %s)" % (c_v(op[1]), c_req(op[2]), op[3], op[4], op[5], ev)
     if k == "unregS":
         return "(UnregSub %s %s %d %d)" % (c_ov(op[1]), c_req(op[2]), op[3], op[4])
     if k == "regH":
-        return "(RegHandler %s %s %d %d)" % (c_v(op[1]), c_req(op[2]), op[3], op[4])
+        return "(RegHandler %s %s %d %d %s)" % (c_v(op[1]), c_req(op[2]), op[3], op[4], ev)
     if k == "unregH":
         return "(UnregHandler %s %s %d)" % (c_ov(op[1]), c_req(op[2]), op[3])
     raise ValueError(k)
@@ -482,19 +629,37 @@ def c_query(q, ans, oprov):
     raise ValueError(k)
 
 
+def c_sop(step):
+    op = step["op"]
+    if op[0] == "tamper":
+        t = "(TUnreg %d %d)" % (op[2], op[3]) if op[1] == "unreg" else "(TUnsub %d %s)" % (op[2], c_v(op[3]))
+        return "(STamper %d %s)" % (step.get("on", 0), t)
+    if op[0] == "rebuild":
+        return "(SRebuild %d)" % step.get("on", 0)
+    if op[0] == "newc":
+        return "(SNew %s)" % RC.c_lnat(op[1])
+    if op[0] == "setbases":
+        return "(SSetBases %d %s)" % (op[1], RC.c_lnat(op[2]))
+    return "(SOp %d %s)" % (step.get("on", 0), c_op(op))
+
+
 def c_step(step, ob, oprov):
     ret = ob["ret"]
     exc = bool(ob.get("exc")) or "error" in ob
-    cret = {"none": "RNone", True: "(RBool true)", False: "(RBool false)", "TypeError": "RTypeError"}.get(ret, "RNone")
+    if isinstance(ret, list) and ret and ret[0] == "dict":
+        cret = "(RDict (%d, %d, %d, %d))" % tuple(ret[1:])
+    else:
+        cret = {"none": "RNone", True: "(RBool true)", False: "(RBool false)", "TypeError": "RTypeError"}.get(ret, "RNone")
     evs = "[" + "; ".join("(%s %s)" % ("Registered" if e[0] else "Unregistered", c_rec(e[1])) for e in ob["events"]) + "]"
     if "error" in ob:
         lists, probe, qs = ["[]"] * 4, "(9, 9, 9, 9)", "[]"
     else:
         lists = [c_recs(ob[k]) for k in ("lu", "la", "ls", "lh")]
         probe = "(%d, %d, %d, %d)" % tuple(ob["probe"])
-        qs = "[" + "; ".join(c_query(q, a, oprov) for q, a in zip(step["queries"], ob["answers"])) + "]"
-    return "(%s,\n     mkObs %s %s %s\n       %s\n       %s\n       %s\n       %s %s\n       %s)" % (
-        c_op(step["op"]), C.cbool(exc), cret, evs, lists[0], lists[1], lists[2], lists[3], probe, qs)
+        qs = "[" + "; ".join("(%d, %s)" % (r_, c_query(q, a, oprov))
+                             for q, a, r_ in zip(step["queries"], ob["answers"], ob["qon"])) + "]"
+    return "(%s,\n     mkObs %s %d %s %s\n       %s\n       %s\n       %s\n       %s %s\n       %s)" % (
+        c_sop(step), C.cbool(exc), ob.get("on", 0), cret, evs, lists[0], lists[1], lists[2], lists[3], probe, qs)
 
 
 _TERMS = {}     # mode -> {id(case): (position, term, case)}
@@ -513,20 +678,19 @@ def coq_case(case, obs, mode):
 
 def _classify_known(mode):
     """Evaluate, in Coq, the Spec oracle with exactly one recorded deviation tolerated, on every
-    case of this mode that contains such a shape; a case gets a key only if it contains one
-    shape and passes the oracle that tolerates that shape alone."""
+    case of this mode that contains exactly one such shape; the case gets that shape's key only if
+    it passes the oracle that tolerates that shape alone."""
     res = {}
     items = [(cid, t, c, case_shapes(c)) for cid, (t, c) in _TERMS.get(mode, {}).items()]
-    items = [it for it in items if len(it[3]) == 1]
+    items = [it for it in items if len(it[3]) == 1 and next(iter(it[3])) in KEYS]
     if items:
-        bad_f9, bad_f11, errors = C.coq_eval_cases("Tie.C16Known", [it[1] for it in items], shard=SHARD)
+        terms = ["(%d, %s)" % (KEYS[next(iter(sh))][0], t) for _cid, t, _c, sh in items]
+        _bm, bad, errors = C.coq_eval_cases("Tie.C16Known", terms, shard=SHARD)
         if errors:
             raise C.HarnessError("coqc failed while classifying known findings: " + json.dumps(errors)[:2000])
-        for j, (cid, _t, _c, shapes) in enumerate(items):
-            if shapes == {"F9"} and j not in bad_f9:
-                res[cid] = F9_KEY
-            elif shapes == {"F11"} and j not in bad_f11:
-                res[cid] = F11_KEY
+        for j, (cid, _t, _c, sh) in enumerate(items):
+            if j not in bad:
+                res[cid] = KEYS[next(iter(sh))][1]
     _KNOWN[mode] = res
 
 
@@ -550,6 +714,10 @@ def kind(case, obs):
 
 
 def _py_op(op):
+    if not _ev(op):
+        return _py_op(_noev(op)) + "   # event=False"
+    op = _noev(op)
+
     def v(x):
         return "None" if x is None else "c%d" % x[0]
 
@@ -587,14 +755,26 @@ def _py_op(op):
 
 
 def replay_text(case, obs, mode):
-    lines = ["# PURE_PYTHON=%s ; zope.interface.registry.notify patched to record events" % ("1" if mode == "py" else "0"),
+    lines = ["# PURE_PYTHON=%s ; zope.interface.registry.notify patched to record events; reg0 = Components('c0')" % ("1" if mode == "py" else "0"),
              "# S<k>: specification number k of the case's world (0 = Interface); c<v>: component/factory with identity v,",
              "# equality class %r, unhashable identities %r, falsy identities %r"
              % (POOL, case.get("unhashable", []), case.get("falsy", [])),
              "# falsy factory= objects: %r" % (case.get("falsy_factories", []),),
-             "reg = Components('c16')"]
+             ]
     for s, o in zip(case["steps"], obs.get("steps", [])):
-        lines.append("%s   # -> %r events=%r" % (_py_op(s["op"]), o.get("ret"), o.get("events")))
+        op = s["op"]
+        if op[0] == "tamper":
+            text = ("reg%d.utilities.unregister((), S%d, %r)" % (s.get("on", 0), op[2], "" if op[3] == 0 else "n%d" % op[3])
+                    if op[1] == "unreg" else "reg%d.utilities.unsubscribe((), S%d, c%d)" % (s.get("on", 0), op[2], op[3][0]))
+        elif op[0] == "rebuild":
+            text = "reg%d.rebuildUtilityRegistryFromLocalCache(True)" % s.get("on", 0)
+        elif op[0] == "newc":
+            text = "reg%d = Components('c', bases=(%s))" % (o.get("on", 0), "".join("reg%d, " % b for b in op[1]))
+        elif op[0] == "setbases":
+            text = "reg%d.__bases__ = (%s)" % (op[1], "".join("reg%d, " % b for b in op[2]))
+        else:
+            text = _py_op(op).replace("reg.", "reg%d." % s.get("on", 0), 1)
+        lines.append("%s   # -> %r events=%r" % (text, o.get("ret"), o.get("events")))
     return "\n".join(lines)
 
 
@@ -604,10 +784,13 @@ TECHNIQUE = ("fail-closed ast translator regenerating the bookkeeping kernels of
              "_UtilityRegistrations) on top of the shared adapter-registry model; refinement to a ledger Spec; "
              "vm_compute correspondence with both implementations and a ledger-only Spec oracle on their raw answers")
 LEVEL_TEXT = ("The bookkeeping kernels of registry.py (_UnhashableComponentCounter, _UtilityRegistrations, the eight "
-              "register/unregister methods and four listings of Components) are re-translated from the current source text "
-              "into Gallina on every run by a fail-closed translator and proved equal to the model for all states and "
-              "arguments (5 theorems C16_generated_*_eq_model). "
-              "Machine-checked theorems (Properties/C16.v, 16 theorems, closed under the global context) state for every "
+              "register/unregister methods with event=, four listings, rebuildUtilityRegistryFromLocalCache and the eight "
+              "query methods of Components) are re-translated from the current source text into Gallina on every run by a "
+              "fail-closed translator and proved equal to the model for all states and arguments (7 theorems "
+              "C16_generated_*_eq_model). Objects connected by __bases__: listings stay local and queries follow the "
+              "current base chain (C16_listings_local, C16_queries_follow_bases); rebuild=True repairs any tampered "
+              "registry (C16_probe_repairs). "
+              "Machine-checked theorems (Properties/C16.v, 23 theorems, closed under the global context) state for every "
               "history of the eight mutators and re-initialisation that the four listings equal the Spec ledger, that both "
               "underlying registries hold exactly what the listings determine and that their pruning structures never "
               "hide a stored registration, that queryUtility answers from the listings, that the probe finds nothing, that "
@@ -618,7 +801,9 @@ LEVEL_TEXT = ("The bookkeeping kernels of registry.py (_UnhashableComponentCount
 LEVEL_NOTE = ("Trusted: Coq kernel/vm_compute; the hand transcription of registry.py and the shared Model/Adapter.v "
               "(validated by the correspondence on every run); query methods are tied to the listings at storage level "
               "and (utilities) lookup level only; most-specific-adapter / subscription order are C04/C07's theorems. "
-              "Still hand-modelled (tied by the correspondence only): rebuildUtilityRegistryFromLocalCache, the query methods, "
-              "__init__, the _utility_registrations_cache property, the inference helpers. "
+              "Still hand-modelled (tied by the correspondence only): __init__ / __bases__ (_setBases), the "
+              "_utility_registrations_cache property, the inference helpers; the registries behind the query methods "
+              "are the uncached walkers over the current chain (caches / stored ro: C05, C06). Re-__init__ of an object "
+              "that is still another object's base is outside the model. "
               "event=False, inference of provided/required/name, bases, pickling are outside the model (inference is "
               "exercised by the tie with the inferred values made explicit in the model).")
